@@ -427,7 +427,7 @@ class SeriesOps:
         if name == "pd.DataFrame" or name.endswith("DataFrame.from_records") or name.endswith("DataFrame.from_dict"):
             return self.make_frame(a0 if pos else kw.get("data"), kw, node, name)
         if name == "pd.Series":
-            if isinstance(a0, Ser):
+            if isinstance(a0, Ser) and not (getattr(a0, "positional", False) and "index" in kw):
                 return a0
             data = a0 if pos else kw.get("data")
             dt = to_term(data)
@@ -437,6 +437,9 @@ class SeriesOps:
                     and isinstance(ix, Ser) and ix.name == "__index__" and ix.frame is not None and ix.ctx == dt[3][1]:
                 from .pandas_ops import _strip_row
                 return Ser(_strip_row(dt[2]), ix.ctx, ix.frame)
+            # pd.Series(<array with one value per row of df>, index=df.index): that column of df
+            if isinstance(data, Ser) and getattr(data, "positional", False) and isinstance(ix, Ser) and ix.name == "__index__" and ix.frame is not None and data.ctx == ix.ctx:
+                return Ser(data.term, ix.ctx, ix.frame)
             # pd.Series(<scalar>, index=df.index): the constant column over df's rows
             if isinstance(ix, Ser) and ix.name == "__index__" and ix.frame is not None and (isinstance(data, (int, float, str, bool)) or (isinstance(data, tuple) and data and data[0] in ("const", "enum", "param"))):
                 return Ser(dt, ix.ctx, ix.frame)
@@ -470,6 +473,10 @@ class SeriesOps:
             ser = next((x for x in pos if isinstance(x, Ser)), None)
             r = T.ite(M.as_ser_term(pos[0]), M.as_ser_term(pos[1]), M.as_ser_term(pos[2])) if len(pos) == 3 else T.opaque("np.where/1")
             return ser.with_term(r) if ser is not None else r
+        if name in ("np.full", "np.zeros", "np.ones") and pos and isinstance(a0, tuple) and len(a0) == 2 and a0[0] == "nrows":
+            # an array with one (constant) value per row of a frame / series
+            val = pos[1] if name == "np.full" and len(pos) > 1 else kw.get("fill_value", 0 if name != "np.ones" else 1) if name == "np.full" else (0 if name == "np.zeros" else 1)
+            return Ser(to_term(val), a0[1], None, None, positional=True)
         if name in ("np.logical_and", "np.logical_or") and len(pos) == 2 and not kw:
             return M.binop("BitAnd" if short == "logical_and" else "BitOr", pos[0], pos[1], node)
         if name == "np.logical_not" and len(pos) == 1 and not kw:
@@ -658,6 +665,9 @@ class SeriesOps:
                 return [PyTuple(list(x)) for x in zip(*cols_)]
             if all(I._concrete_seq(p) is not None for p in pos) and pos:
                 return [PyTuple(list(x)) for x in zip(*[I._concrete_seq(p) for p in pos])]
+            if pos and all(isinstance(p, Ser) for p in pos):
+                # iterating Series / arrays yields their values in row order: the same as zipping their tolist()s (the row-walk law of iter_element applies)
+                return ("zip", tuple(("tolist", p.term, p.ctx) for p in pos))
             return ("zip", tuple(self.M.as_ser_term(p) if isinstance(p, Ser) else to_term(p) for p in pos))
         if fn == "enumerate":
             start = pos[1] if len(pos) > 1 else kw.get("start", 0)
